@@ -419,6 +419,8 @@ class Interp:
                     setattr(base, target.attr, value)
                 except AttributeError:
                     raise Unknown(f"attribute {target.attr} of {type(base).__name__} cannot be set in the model")
+                except ValueError:
+                    raise EvalRaise("ValueError", target)
                 return True
             return False
         if isinstance(target, ast.Subscript):
